@@ -136,9 +136,10 @@ func VC11Hash() {
 // vCollide has the same hash bucket as "msg" (fnv32a 3041451778 vs 3766509314, both = 1730 mod 4096).
 const vCollide = "m2853"
 
-//verif: prop=C11 bounds="bucket identity over symbolic levels for the message menu {msg, three messages colliding with it modulo 4096 (with different residues modulo larger table sizes), other}; fnv32a itself is covered by VC11Hash"
+//verif: prop=C11 bounds="bucket identity through the public API: a sampler with first=1, thereafter=0 and two entries with equal timestamps, levels any two valid levels (symbolic), messages from the menu {msg, three messages colliding with it modulo 4096 (with different residues modulo larger table sizes), other}: the second entry is dropped iff it has the first one's level and bucket; fnv32a itself is covered by VC11Hash"
 func VC11Bucket() {
-	cs := newCounters()
+	inner := vNewRecCore("rec", DebugLevel)
+	s := NewSamplerWithOptions(inner, time.Second, 1, 0)
 	l1, l2 := Level(vrt.Int8("l1")), Level(vrt.Int8("l2"))
 	vrt.Assume(l1 >= DebugLevel && l1 <= FatalLevel)
 	vrt.Assume(l2 >= DebugLevel && l2 <= FatalLevel)
@@ -148,16 +149,32 @@ func VC11Bucket() {
 	msgs := []string{"msg", vCollide, "m11897", "m13514", "other"}
 	k1, k2 := msgs[vrt.Choice("k1", 5)], msgs[vrt.Choice("k2", 5)]
 	for _, tw := range msgs[1:4] {
-		if fnv32a("msg")%_countersPerLevel != fnv32a(tw)%_countersPerLevel {
-			vrt.Fail("hash-is-not-the-fixed-fnv1a")
+		if vRefFNV(tw)%4096 != vRefFNV("msg")%4096 {
+			vrt.Fail("twins-collide-under-the-reference-hash")
 		}
 	}
-	if fnv32a("msg")%_countersPerLevel == fnv32a("other")%_countersPerLevel {
-		vrt.Fail("hash-is-not-the-fixed-fnv1a")
+	for i, k := range []string{k1, k2} {
+		l := []Level{l1, l2}[i]
+		if ce := s.Check(Entry{Level: l, Message: k, Time: time.Unix(50, 0)}, nil); ce != nil {
+			ce.Write()
+		}
 	}
-	same := cs.get(l1, k1) == cs.get(l2, k2)
-	sameBucket := k1 == k2 || (k1 != "other" && k2 != "other")
-	vrt.Assert("bucket-identity", same == (l1 == l2 && sameBucket))
+	sameBucket := l1 == l2 && (k1 == k2 || (k1 != "other" && k2 != "other"))
+	vrt.Observe("written", len(inner.shared.writes))
+	if sameBucket {
+		vrt.Assert("bucket-identity", len(inner.shared.writes) == 1)
+	} else {
+		vrt.Assert("bucket-identity", len(inner.shared.writes) == 2)
+	}
+}
+
+// vRefFNV is FNV-1a, written down independently.
+func vRefFNV(k string) uint32 {
+	h := uint32(2166136261)
+	for i := 0; i < len(k); i++ {
+		h = (h ^ uint32(k[i])) * 16777619
+	}
+	return h
 }
 
 // Histories: k entries on a fresh sampler against a window-based reference kept per bucket.
@@ -292,5 +309,53 @@ func VC11Concurrent() {
 		}
 		vrt.Assert("admitted-count-exact-inside-an-open-window", forwarded == want)
 	}
+	vrt.Cover("done")
+}
+
+// vDynEnab is a threshold that can move after the sampler was built (an AtomicLevel, in zap's terms).
+type vDynEnab struct{ thr *Level }
+
+func (d vDynEnab) Enabled(l Level) bool { return l >= *d.thr }
+
+//verif: prop=C11 bounds="sampler built over a core whose threshold then moves (any valid level to any valid level, as an AtomicLevel does); 4 entries of one message at one level (Debug..Error) inside one window, through the sampler or a With-derived one; first in 0..2, thereafter in {0,2}: entries at a level that is enabled when they are logged are admitted by ordinal and each gets one hook call with the decision applied; entries at a disabled level are not written and get no hook call"
+func VC11DynamicLevel() {
+	thr := Level(vrt.IntRange("level0", -1, 2))
+	inner := vNewRecCore("rec", vDynEnab{&thr})
+	first := vrt.IntRange("first", 0, 2)
+	thereafter := []int{0, 2}[vrt.Choice("thereafter", 2)]
+	sampledHooks, droppedHooks := 0, 0
+	root := NewSamplerWithOptions(inner, 10*time.Second, first, thereafter, SamplerHook(func(e Entry, d SamplingDecision) {
+		if d == LogSampled {
+			sampledHooks++
+		} else {
+			droppedHooks++
+		}
+	}))
+	var s Core = root
+	if vrt.Choice("derived", 2) == 1 {
+		s = root.With([]Field{{Key: "k", Type: Int64Type, Integer: 1}})
+	}
+	thr = Level(vrt.IntRange("level1", -1, 2))
+	lvl := Level(vrt.IntRange("entry", -1, 2))
+	const K = 4
+	for i := 0; i < K; i++ {
+		ent := Entry{Level: lvl, Message: "msg", Time: time.Unix(100, int64(i))}
+		if ce := s.Check(ent, nil); ce != nil {
+			ce.Write()
+		}
+	}
+	want := 0
+	if lvl >= thr {
+		for n := 1; n <= K; n++ {
+			if n <= first || (thereafter != 0 && (n-first)%thereafter == 0) {
+				want++
+			}
+		}
+		vrt.Assert("one-hook-call-with-the-decision-applied", sampledHooks == want && droppedHooks == K-want)
+	} else {
+		vrt.Assert("disabled:no-hook", sampledHooks+droppedHooks == 0)
+	}
+	vrt.Observe("written", len(inner.shared.writes))
+	vrt.Assert("admitted-first-n-then-every-mth", len(inner.shared.writes) == want)
 	vrt.Cover("done")
 }
